@@ -61,7 +61,7 @@ impl ZodBindingsGenerator {
 
         let enum_values = variants.join(", ");
         format!(
-            "export const {}Schema = z.enum([{}]);\n\n",
+            "export const {0}Schema = z.enum([{1}]);\n\nexport type {0} = z.infer<typeof {0}Schema>;\n\n",
             name, enum_values
         )
     }
